@@ -1,5 +1,6 @@
 import ASV.Drv.J
 import ASV.Spec.Modules
+import ASV.Model.ModulesHmm
 namespace ASV.Drv.C14
 open Lean ASV ASV.Drv ASV.Modules
 abbrev Mod := ASV.Modules.Module
@@ -88,7 +89,7 @@ structure GeneJ where
 
 def geneOfJson (j : Json) : R Gene := do
   return ⟨← strF j "name", ← intF j "strand", (natF j "region").toOption.getD 0,
-          ← listOf domainOfJson (← fld j "domains"), boolFD j "motifs" false⟩
+          ← listOf domainOfJson (← fld j "domains"), boolFD j "motifs" false, 0⟩
 
 def handlePair (j : Json) : R Json := do
   let a ← geneOfJson (← fld j "a")      -- previous
@@ -114,12 +115,16 @@ def handlePair (j : Json) : R Json := do
                               ("merged", match merged with | some m => specOfModule m | none => Json.null)])]
 
 def handleChain (j : Json) : R Json := do
-  let genes ← listOf geneOfJson (← fld j "genes")
+  let genes0 ← listOf geneOfJson (← fld j "genes")
+  let genes := (genes0.zipIdx).map fun (g, i) => { g with index := i }
   let model := exceptJson ((chain genes).map fun rs =>
     jObj [("genes", jArr (rs.map fun r => jObj [("name", Json.str r.name), ("modules", modulesToJson r.modules)]))])
-  let impl ← listOf (fun g => listOf implModule g) (fldD j "impl_genes" (jArr []))
+  let impl ← listOf (fun g => do
+      return ((← strF g "name"), (← listOf implModule (← fld g "modules")))) (fldD j "impl_genes" (jArr []))
   return jObj [("model", model),
-               ("spec", jObj [("genes", jArr (impl.map fun ms => jArr (ms.map specOfModule)))])]
+               ("spec", jObj [("genes", jArr (impl.map fun g => jArr (g.2.map specOfModule))),
+                              ("line", toJson (Spec.chainLineOK genes (impl.map fun g => (g.1, g.2.map (·.1))))),
+                              ("blocks", toJson (Spec.chainBlocksOK genes (impl.map fun g => (g.1, g.2.map (·.1)))))])]
 
 def handleLabel (j : Json) : R Json := do
   let label ← strF j "label"
@@ -132,6 +137,32 @@ def handleLabel (j : Json) : R Json := do
                      c.isFusedStarter, c.isPksSpecific, c.isNrpsSpecific].map fun (b : Bool) => toJson b)),
     ("subtype", match c.subtype with | some s => Json.str s | none => Json.null)])]
 
+/-- `[hit_id, start, end, evalue, bitscore, [children…]]` -/
+partial def hmmOfJson (j : Json) : R Hmm := do
+  return .mk (← asStr (← idx j 0)) (← asInt (← idx j 1)) (← asInt (← idx j 2)) (← asInt (← idx j 3))
+             (← asInt (← idx j 4)) (← listOf hmmOfJson (← idx j 5))
+
+partial def hmmJsonToJson : HmmJson → Json
+  | .mk i s e ev bs internal =>
+    jArr [Json.str i, toJson s, toJson e, toJson ev, toJson bs,
+          match internal with | none => Json.null | some l => jArr (l.map hmmJsonToJson)]
+
+partial def hmmToJson : Hmm → Json
+  | .mk i s e ev bs l => jArr [Json.str i, toJson s, toJson e, toJson ev, toJson bs, jArr (l.map hmmToJson)]
+
+def handleHmm (j : Json) : R Json := do
+  let raw ← hmmOfJson (← fld j "tree")
+  let locus ← strF j "locus"
+  let model : Except Err Json := do
+    let h ← Hmm.validate raw
+    let reloaded ← Hmm.fromJson h.toJson
+    let comp : Json := match mkComp locus h.domain with
+      | .ok c => compToJson c
+      | .error e => jObj [("err", Json.str (errStr e))]
+    pure (jObj [("names", jStrs h.detailedNames), ("json", hmmJsonToJson h.toJson),
+                ("reloaded", hmmToJson reloaded), ("tree", hmmToJson h), ("wf", toJson h.WF), ("component", comp)])
+  return jObj [("model", exceptJson model)]
+
 def handle (j : Json) : R Json := do
   match (← strF j "kind") with
   | "build" => handleBuild j
@@ -139,6 +170,7 @@ def handle (j : Json) : R Json := do
   | "pair" => handlePair j
   | "chain" => handleChain j
   | "label" => handleLabel j
+  | "hmm" => handleHmm j
   | k => throw s!"C14: unknown kind {k}"
 
 end ASV.Drv.C14
